@@ -481,6 +481,15 @@ func (in *interp) convert(fr *frame, ce *ast.CallExpr, max *big.Int) (value, err
 	if x, ok := v.(*Val); ok && max != nil && x.hi.Cmp(max) > 0 {
 		// a narrowing conversion to an n-bit unsigned type keeps the low n bits: x = 2^n * (x >> n) + r, the result is r
 		// (the same decomposition the right shift introduces)
+		if max.Cmp(big.NewInt(255)) == 0 && x.lo.Sign() >= 0 && x.hi.Cmp(bigWm1) <= 0 {
+			// the low octet: of the word itself, or - for a word shifted right by whole octets - octet k of the shifted word
+			if x.byteBase != nil {
+				return in.bytesOf(x.byteBase)[x.byteIdx], nil
+			}
+			if _, isC := x.constant(); !isC {
+				return in.bytesOf(x)[0], nil
+			}
+		}
 		if n := max.BitLen(); x.lo.Sign() >= 0 && new(big.Int).Add(max, big1).Cmp(new(big.Int).Lsh(big1, uint(n))) == 0 && n < 64 {
 			t, err := in.opShr(x, in.constInt(int64(n)))
 			if err == nil && t.org != nil && t.org.op == "shr" && len(t.org.args) == 2 {
